@@ -153,6 +153,9 @@ def apply_op(reg, op):
         if k == "insert":
             r = o[op[1]].insert(o[op[2]], op[3])
             return ("RNone",) if r is o[op[1]] else ("RErr",)
+        if k == "setitem":
+            o[op[1]][op[2]] = o[op[3]]
+            return ("RNone",)
         if k == "remove":
             return _nodes(reg, o[op[1]].remove(o[op[2]]))
         if k == "detach":
@@ -305,6 +308,8 @@ def makes_cycle(reg, op):
         return any(reaches(reg, x, op[1]) for x in op[2])
     if k == "insert":
         return reaches(reg, op[2], op[1])
+    if k == "setitem":
+        return reaches(reg, op[3], op[1])
     if k == "replace":
         return any(reaches(reg, x, op[1]) for x in op[3])
     return False
@@ -318,6 +323,8 @@ def op_ids(op):
         return [op[1]] + list(op[2])
     if k in ("insert", "remove"):
         return [op[1], op[2]]
+    if k == "setitem":
+        return [op[1], op[3]]
     if k == "replace":
         return [op[1], op[2]] + list(op[3])
     return [op[1]]
@@ -422,6 +429,8 @@ def c_op(op):
         return "(OAppend %d%%N %s)" % (op[1], c_ids(op[2]))
     if k == "insert":
         return "(OInsert %d%%N %d%%N %s)" % (op[1], op[2], cZ(op[3]))
+    if k == "setitem":
+        return "(OSetItem %d%%N %s %d%%N)" % (op[1], cZ(op[2]), op[3])
     if k == "remove":
         return "(ORemove %d%%N %d%%N)" % (op[1], op[2])
     if k == "detach":
@@ -633,7 +642,10 @@ class Picker(object):
                 op = ("detach", rng.choice(att))
             elif r < 0.14 and att:
                 x = rng.choice(att)
-                op = ("remove", reg.idof(o[x].parent), x)
+                if rng.random() < 0.75:
+                    op = ("remove", reg.idof(o[x].parent), x)
+                else:
+                    op = ("remove", self.anynode(), x)             # mostly not its parent: nothing happens
             elif r < 0.24:
                 cands = [x for x in roots if x != 0 or rng.random() < 0.1]
                 if cands:
@@ -645,7 +657,12 @@ class Picker(object):
                     op = ("append", self.anynode(), xs, len(xs) > 1 or rng.random() < 0.3)
             elif r < 0.32:
                 cands = [x for x in roots if x != 0 or rng.random() < 0.1]
-                if cands:
+                if cands and rng.random() < 0.25:
+                    p = self.inner()
+                    n = len(o[p].children)
+                    idx = rng.randrange(0, n) if n and rng.random() < 0.8 else rng.choice([n, n + 2, -1, -5])
+                    op = ("setitem", p, idx, rng.choice(cands))         # p[idx] = x
+                elif cands:
                     p = self.inner()
                     n = len(o[p].children)
                     idx = rng.randrange(0, n + 1) if rng.random() < 0.85 else rng.choice([-1, -2, -9, n + 1, n + 5])
@@ -741,9 +758,11 @@ class Picker(object):
         if r < 0.3 and att:
             return ("append", self.anynode(), [rng.choice(att)], False)        # still attached elsewhere
         if r < 0.45 and att:
+            if rng.random() < 0.3:
+                return ("setitem", self.inner(), 0, rng.choice(att))
             return ("insert", self.inner(), rng.choice(att), 0)
         if r < 0.65 and att:
-            return ("remove", self.anynode(), rng.choice(att))                 # not its parent
+            return ("append", self.inner(), [rng.choice(att)], True)
         if r < 0.85 and att:
             c = rng.choice(att)
             p = o[c].parent
@@ -816,7 +835,8 @@ SMALL_OPS_CORE = [
     ("clone", 0), ("clone", 2),
 ]
 SMALL_OPS_MORE = [
-    ("detach", 3), ("detach", 4), ("remove", 2, 5), ("append", 1, [6], False), ("append", 0, [7, 6], True),
+    ("detach", 3), ("detach", 4), ("remove", 2, 5), ("setitem", 0, 1, 6), ("setitem", 2, 0, 7), ("setitem", 0, 3, 6),
+    ("childrenAtPath", 0, "/a"), ("childrenAtPath", 0, "b/"), ("append", 1, [6], False), ("append", 0, [7, 6], True),
     ("insert", 2, 6, 1), ("insert", 0, 6, 3), ("replace", 0, 3, [7], False), ("replace", 0, 2, [4], False),
     ("replace", 0, 2, [1], False), ("replace", 0, 1, [2], False),
     ("append", 3, [5], False), ("remove", 1, 5),
@@ -1000,7 +1020,7 @@ def probe_unset_wrong_attribute():
 
 
 def regression_probes():
-    """The three repaired defects, each on its original one-line input:
+    """The repaired defects, each on its original one-line input:
     [(key of the `fixed` entry, what, observed)] for those that are back."""
     from suds.sax.element import Element
     back = []
@@ -1067,7 +1087,109 @@ def regression_probes():
         back.append(("C19:set-departs-from-reference",
                      "set('k') on <r p:k='1'/> must add / update the unprefixed attribute k and leave p:k alone",
                      obs))
+    from suds.sax.attribute import Attribute
+
+    def probe(key, what, f):
+        try:
+            ok, obs = f()
+        except Exception as e:     # noqa
+            ok, obs = False, "exception " + repr(e)
+        if not ok:
+            back.append((key, what, obs))
+
+    def unset_unprefixed():
+        r = Element("r")
+        r.addPrefix("p", "u1")
+        r.append(Attribute("p:k", "1"))
+        r.set("k", "2")
+        r.unset("k")
+        first = [a.qname() for a in r.attributes]
+        r.unset("k")
+        second = [a.qname() for a in r.attributes]
+        return first == ["p:k"] and second == ["p:k"], "%r then %r" % (first, second)
+    probe("C19:unset-unprefixed-removes-prefixed",
+          "unset('k') on <r p:k='1' k='2'/> must remove k, and nothing when only p:k is left", unset_unprefixed)
+
+    def prune_parent():
+        r, p, q = Element("r"), Element("p"), Element("q")
+        q.setText("t")
+        r.append([p, q])
+        r.prune()
+        return (p.parent is None and q.parent is r and len(r.children) == 1 and r.children[0] is q,
+                "pruned.parent is None: %s, %s" % (p.parent is None, r.plain()))
+    probe("C19:prune-leaves-stale-parent-link",
+          "a node pruned away from <r><p/><q>t</q></r> must not keep its parent link", prune_parent)
+
+    def setitem_parent():
+        r, p, q = Element("r"), Element("p"), Element("q")
+        r.append(p)
+        r[0] = q
+        return (q.parent is r and [c is x for c, x in zip(r.children, (q, p))] == [True, True],
+                "%s, q.parent is r: %s" % (r.plain(), q.parent is r))
+    probe("C19:setitem-without-parent-link", "r[0] = q on <r><p/></r> must give q its parent link", setitem_parent)
+
+    def one_step_slash():
+        r, p, p2 = Element("r"), Element("p"), Element("p")
+        r.append([p, Element("x"), p2])
+        a, b = r.childrenAtPath("/p"), r.childrenAtPath("p/")
+        return ([x is y for x, y in zip(a, (p, p2))] == [True, True] and len(a) == 2
+                and [x is y for x, y in zip(b, (p, p2))] == [True, True] and len(b) == 2,
+                "%d and %d children found" % (len(a), len(b)))
+    probe("C19:childrenAtPath-one-step-with-slash",
+          "childrenAtPath('/p') and ('p/') on <r><p/><x/><p/></r> must return both p", one_step_slash)
+
+    def remove_foreign():
+        r, p, q, c = Element("r"), Element("p"), Element("q"), Element("c")
+        r.append([p, q])
+        q.append(c)
+        got = p.remove(c)
+        return (got is None and c.parent is q and len(q.children) == 1 and q.children[0] is c,
+                "%s, returned %r" % (r.plain(), got))
+    probe("C19:remove-detaches-foreign-child",
+          "p.remove(c) with c a child of q, in <r><p/><q><c/></q></r>, must leave c where it is", remove_foreign)
     return back
+
+
+def known_finding_probes():
+    """Directed instances of the three departures recorded as KNOWN findings (kept in the
+    model, outside the reference's domain): [(key, what)] for those observed."""
+    from suds.sax.element import Element
+    seen = []
+    try:
+        r, x, a, b = Element("r"), Element("x"), Element("a"), Element("b")
+        r.append([x, a, b])
+        r.replaceChild(a, x)
+        if not (len(r.children) == 2 and r.children[0] is x and r.children[1] is b):
+            seen.append(("C19:replaceChild-content-is-earlier-sibling",
+                         "r.replaceChild(a, x) on <r><x/><a/><b/></r>, x an earlier sibling of a, gives %s instead "
+                         "of <r><x/><b/></r>: the position is computed before the content is detached" % r.plain()))
+    except Exception:     # noqa
+        pass
+    try:
+        r, p, q, c = Element("r"), Element("p"), Element("q"), Element("c")
+        r.append([p, q])
+        q.append(c)
+        p.append(c)
+        if any(k is c for k in q.children):
+            seen.append(("C19:append-does-not-detach",
+                         "p.append(c) with c still a child of q gives %s: c is listed under both and points to p "
+                         "(insert and p[i] = c behave alike)" % r.plain()))
+    except Exception:     # noqa
+        pass
+    try:
+        r, a = Element("r"), Element("a")
+        r.addPrefix("q", "u")
+        r.append(a)
+        a.set("q:x", "1")
+        c = a.clone()
+        if a.attributes[0].namespace()[1] != c.attributes[0].namespace()[1]:
+            seen.append(("C19:clone-loses-inherited-attribute-prefix",
+                         "the clone of <a q:x='1'/> under <r xmlns:q='u'> is %s: its attribute q:x is in namespace %r, "
+                         "the original's in %r" % (c.plain(), c.attributes[0].namespace()[1],
+                                                   a.attributes[0].namespace()[1])))
+    except Exception:     # noqa
+        pass
+    return seen
 
 
 def probes():
@@ -1600,6 +1722,9 @@ def run(ck):
     for key, what, observed in bounded(regression_probes, []):
         ck.failing_input(key, what + " (repaired earlier, now back): " + observed,
                          {"kind": "regression-probe", "key": key, "observed": observed})
+    for key, what in bounded(known_finding_probes, []):
+        ck.failing_input(key, what, {"kind": "known-probe", "key": key})
+    ck.seen(("probe", "known-findings"), nontrivial=True)
     ck.seen(("probe", "regressions"), nontrivial=True)
     ck.count("probe:repaired-defects")
     ck.extra["probes"] = probes()
@@ -1744,6 +1869,9 @@ def replay(ck, payload):
     kind = payload.get("kind")
     if kind == "unset-probe":
         print("attributes left now:", probe_unset_wrong_attribute(), " expected:", payload.get("expected"))
+        return 0
+    if kind == "known-probe":
+        print("known findings observed now:", [k for k, _ in known_finding_probes()])
         return 0
     if kind == "regression-probe":
         print("repaired defects that are back now:", [k for k, _, _ in regression_probes()])
